@@ -157,7 +157,11 @@ def _str_tuple(n):
 
 
 def _is_sub0(n, var=None):
-    if not (isinstance(n, ast.Subscript) and isinstance(n.slice, ast.Constant) and n.slice.value == 0):
+    """x[0], or the equivalent x[:1] (a one-character prefix)"""
+    first = isinstance(n, ast.Subscript) and isinstance(n.slice, ast.Constant) and n.slice.value == 0
+    prefix1 = (isinstance(n, ast.Subscript) and isinstance(n.slice, ast.Slice) and n.slice.lower is None and n.slice.step is None
+               and isinstance(n.slice.upper, ast.Constant) and n.slice.upper.value == 1)
+    if not (first or prefix1):
         return False
     if not isinstance(n.value, ast.Name):
         # e.g. line.lstrip()[0]: a first-character test on a derived string is not what the model has
@@ -1067,6 +1071,14 @@ def _err(e):
     return "ERR:" + type(e).__name__
 
 
+def _lazy_dict(container):
+    """the dict in which a text container keeps its (still unparsed) elements — found by type, not by its private name"""
+    ds = [v for v in vars(container).values() if isinstance(v, dict)]
+    if len(ds) != 1:
+        raise RuntimeError(f"{type(container).__name__}: expected one dict attribute, found {len(ds)}")
+    return ds[0]
+
+
 _PRIVATE = {}
 
 
@@ -1226,13 +1238,13 @@ def _run_impl(case):
             elif w[0] == "parseblock":
                 try:
                     b = pdbx.CIFBlock.deserialize(dec(w[1]))
-                    items = list(b._categories.items())
+                    items = list(_lazy_dict(b).items())
                     out.append("ok " + ("_" if not items else "/".join(_optname(k) + ":" + enc(v) for k, v in items)))
                 except Exception:
                     out.append("ERR")
             elif w[0] == "parsefile":
                 f = pdbx.CIFFile.deserialize(dec(w[1]))
-                items = list(f._blocks.items())
+                items = list(_lazy_dict(f).items())
                 out.append("ok " + ("_" if not items else "|".join(enc(k) + "@" + enc(v) for k, v in items)))
             elif w[0] == "serfile":
                 out.append("ok " + enc(_build_file(dec_blocks(w[1])).serialize()))
